@@ -51,3 +51,9 @@ pub open spec fn lx_op_plain(first: char) -> Option<Operator> {
     else if first == '!' { Some(Operator::Not) }
     else { None }
 }
+
+/// an expression text without NUL characters (the lexer uses NUL as its end marker; the clauses about what a token
+/// consumes are stated for such texts)
+pub open spec fn lx_clean(l: ExpressionLexer) -> bool {
+    forall|i: int| 0 <= i < l.text.len() ==> #[trigger] l.text@[i] != '\0'
+}
